@@ -1188,6 +1188,13 @@ fn c18_oracle(sc: &Scenario, ex: &Execution, info: &mut CaseInfo) -> Vec<Finding
             .map(|t| t.activity.kind != 0 && t.activity.kind < 100)
             .unwrap_or(false);
         info.class(format!("frozen_inside_an_api_call={}", frozen_in_call));
+        if let Some(t) = ex.outcome.threads.iter().find(|t| t.blocked == Some(crate::rt::Block::Frozen)) {
+            info.class(format!("frozen_inside={:?}", CallKind::from_code(t.activity.kind)));
+            if CallKind::from_code(t.activity.kind) == Some(CallKind::AddStream) {
+                let shared = h.streams.get(&t.activity.stream).map(|s| s.handles.len() >= 2).unwrap_or(false);
+                info.class(format!("frozen_inside_add_stream_on_a_shared_parent={}", shared));
+            }
+        }
         info.nontrivial = frozen_in_call;
         for th in &ex.outcome.threads {
             let k = th.activity.kind;
